@@ -4,7 +4,7 @@
 (* word arithmetic against TLA+'s own integers (narrow words), its algebraic *)
 (* laws on full-width words, and the reference hashes against the published  *)
 (* SMHasher verification values (MurmurHash2: 0x27864C1E, MurmurHash64A:     *)
-(* 0x1F0D3804 - keys {0}, {0,1}, .. of length 0..255 with seed 256 - length, *)
+(* 0x1F0D3804, MurmurHash2A: 0x7FBD4396 - keys {0}, {0,1}, .. of length 0..255 with seed 256 - length, *)
 (* the 256 results hashed again with seed 0).                                *)
 EXTENDS Murmur, TLC
 LOCAL INSTANCE SequencesExt
@@ -22,6 +22,9 @@ Results32 == FoldLeft(LAMBDA acc, i : acc \o Murmur2(Key(i), FromNat(256 - i, 4)
 Results64 == FoldLeft(LAMBDA acc, i : acc \o Murmur64A(Key(i), FromNat(256 - i, 8)), <<>>, Lengths)
 Verification32 == Low(Murmur2(Results32, ZeroW(4)), 4)
 Verification64 == Low(Murmur64A(Results64, ZeroW(8)), 4)
+(* MurmurHash2A (not a function of the property; reference for the ILP32 branch, see Murmur.tla): 0x7FBD4396 *)
+Results2A == FoldLeft(LAMBDA acc, i : acc \o Murmur2A(Key(i), FromNat(256 - i, 4)), <<>>, Lengths)
+Verification2A == Murmur2A(Results2A, ZeroW(4))
 
 (* a handful of independent spot values: empty key, seed 0 hashes to 0 in both algorithms *)
 Spot == /\ Murmur2(<<>>, ZeroW(4)) = ZeroW(4)
@@ -65,7 +68,7 @@ WideLaws(a, b, c) ==
 Init == \/ kind = "narrow" /\ x \in NatReps /\ y \in NatReps /\ z = 0
         \/ kind = "wide"   /\ x \in WideReps /\ y \in WideReps /\ z \in WideReps
         \/ kind = "xor"    /\ x \in 0..255 /\ y = 0 /\ z = 0
-        \/ kind \in {"verify32", "verify64", "spot"} /\ x = 0 /\ y = 0 /\ z = 0
+        \/ kind \in {"verify32", "verify64", "verify2A", "spot"} /\ x = 0 /\ y = 0 /\ z = 0
 Next == UNCHANGED vars
 Spec == Init /\ [][Next]_vars
 
@@ -74,6 +77,7 @@ Laws == CASE kind = "narrow"   -> NarrowLaws(x, y)
           [] kind = "xor"      -> \A b \in 0..255 : (x ^^ b) = XorBits(x, b)
           [] kind = "verify32" -> Verification32 = <<30, 76, 134, 39>>       \* 0x27864C1E
           [] kind = "verify64" -> Verification64 = <<4, 56, 13, 31>>         \* 0x1F0D3804
+          [] kind = "verify2A" -> Verification2A = <<150, 67, 189, 127>>     \* 0x7FBD4396
           [] kind = "spot"     -> Spot
 
 Nats  == (0..17) \cup {127, 128, 129, 255, 256, 257, 4095, 4096, 32767, 32768, 32769, 40503, 46340}
